@@ -630,6 +630,50 @@ func c10_3(c *core.Ctx, p *core.Prog) {
 		}
 	})
 	c.Check(handed, "md|handed", pos, core.FuncName(fn), "the shard is constructed with the metadata map built for this key", "the shard is not constructed with the metadata map built from this request's key values")
+	// the shard stored under the key is that very shard: every value that can reach LoadOrStore's second
+	// argument is a constructor call with this request's metadata map, not something kept from an earlier request
+	{
+		val := core.CallArgs(x.loadStore)[1]
+		okAll, why := true, ""
+		nSrc := 0
+		core.BackSlice(val, func(v ssa.Value) bool {
+			switch y := v.(type) {
+			case *ssa.MakeInterface, *ssa.ChangeInterface, *ssa.ChangeType, *ssa.Phi:
+				return true
+			case *ssa.Call:
+				nSrc++
+				fresh := y.Call.StaticCallee() == m.newShardFn
+				if fresh {
+					fresh = false
+					for _, arg := range core.CallArgs(y) {
+						if mdMap != nil && arg == mdMap {
+							fresh = true
+						}
+					}
+				}
+				if !fresh {
+					okAll, why = false, "a value that is not the shard constructor applied to this request's metadata map"
+				}
+				return false
+			case *ssa.UnOp:
+				nSrc++
+				okAll = false
+				if fa := core.LoadedField(y); fa != nil {
+					why = "the field " + core.FieldName(fa) + ", which outlives the request (a shard built for an earlier request's metadata)"
+				} else {
+					why = "a value loaded from memory that outlives the request"
+				}
+				return false
+			default:
+				nSrc++
+				okAll, why = false, "a value whose origin is not the shard constructor"
+				return false
+			}
+		})
+		c.Check(okAll && nSrc > 0, "md|stored", p.Pos(x.loadStore.Pos()), core.FuncName(fn),
+			"the shard stored under the key is the one constructed from this request's metadata",
+			"the shard stored under this key can be "+why+": its export context carries another combination's metadata values, so batches of this tenant are exported as another tenant's")
+	}
 }
 
 func c10_4(c *core.Ctx, p *core.Prog) {
